@@ -6,6 +6,7 @@ import (
 	"fmt"
 	"go/token"
 	"go/types"
+	"sort"
 	"strings"
 
 	"golang.org/x/tools/go/ssa"
@@ -520,6 +521,13 @@ func (c *freshCtx) fresh(v ssa.Value, depth int) bool {
 			if g, ok := x.X.(*ssa.Global); ok && !isRepoPath(g.Pkg.Pkg.Path()) {
 				return true // shared immutable object of a dependency (time.UTC)
 			}
+			// element of a package-level table that only the package initialiser writes: the same object for every
+			// call, whatever came before (not recycled memory)
+			if ia, ok := x.X.(*ssa.IndexAddr); ok {
+				if g, ok := ia.X.(*ssa.Global); ok && isRepoPath(g.Pkg.Pkg.Path()) && c.p.Tables().Immutable(g) {
+					return true
+				}
+			}
 			c.why = "loaded from " + shortVal(x.X)
 			return false
 		}
@@ -922,4 +930,176 @@ func putGuardedByGetFlag(p *Prog, ps poolSite) bool {
 		}
 	}
 	return false
+}
+
+// ---- POOL-NEW: a pool's constructor hands out an object of its own ---------------------------------
+//
+// sync.Pool.New is called whenever the pool is empty, possibly by several goroutines at once. If it can return
+// the same object twice (a captured variable, a package-level value) two overlapping calls share one buffer —
+// a data race and results that depend on the other call's bytes. Every value New returns must therefore be
+// allocated inside that invocation: a heap allocation in the function's own body or the result of a
+// constructor call, never a captured variable, a global or a parameter.
+
+func poolNewFns(p *Prog, pool *ssa.Global) []*ssa.Function {
+	var out []*ssa.Function
+	var fromVal func(v ssa.Value, depth int)
+	fromVal = func(v ssa.Value, depth int) {
+		if depth > 3 {
+			return
+		}
+		switch x := v.(type) {
+		case *ssa.Function:
+			out = append(out, x)
+		case *ssa.MakeClosure:
+			if fn, ok := x.Fn.(*ssa.Function); ok {
+				out = append(out, fn)
+			}
+		case *ssa.ChangeType:
+			fromVal(x.X, depth+1)
+		case *ssa.Call:
+			if sc := x.Call.StaticCallee(); sc != nil {
+				eachInstr(sc, func(_ *ssa.BasicBlock, _ int, in ssa.Instruction) {
+					if rt, ok := in.(*ssa.Return); ok && len(rt.Results) == 1 {
+						fromVal(rt.Results[0], depth+1)
+					}
+				})
+			}
+		case *ssa.Phi:
+			for _, e := range x.Edges {
+				fromVal(e, depth+1)
+			}
+		}
+	}
+	for _, f := range p.AllLibFns() {
+		eachInstr(f, func(_ *ssa.BasicBlock, _ int, in ssa.Instruction) {
+			st, ok := in.(*ssa.Store)
+			if !ok {
+				return
+			}
+			fa, ok := st.Addr.(*ssa.FieldAddr)
+			if !ok || fa.X != ssa.Value(pool) || fieldName(fa.X.Type(), fa.Field) != "New" {
+				return
+			}
+			fromVal(st.Val, 0)
+		})
+	}
+	return out
+}
+
+func rulePoolNew(p *Prog, r *Report) {
+	seen := map[*ssa.Global]bool{}
+	var pools []*ssa.Global
+	for _, m := range []string{"Get", "Put"} {
+		for _, ps := range poolSites(p, m) {
+			if ps.pool != nil && !seen[ps.pool] {
+				seen[ps.pool] = true
+				pools = append(pools, ps.pool)
+			}
+		}
+	}
+	sort.Slice(pools, func(i, j int) bool { return globalName(pools[i]) < globalName(pools[j]) })
+	for _, pool := range pools {
+		key := globalName(pool) + " | New returns an object of its own"
+		fns := poolNewFns(p, pool)
+		if len(fns) == 0 {
+			r.Undecided("POOL-NEW", key, p.posStr(pool.Pos()), "constructor of the pool not resolved")
+			continue
+		}
+		bad := ""
+		for _, fn := range fns {
+			eachInstr(fn, func(_ *ssa.BasicBlock, _ int, in ssa.Instruction) {
+				rt, ok := in.(*ssa.Return)
+				if !ok || len(rt.Results) != 1 {
+					return
+				}
+				if w := freshInCall(p, fn, rt.Results[0], 0, map[ssa.Value]bool{}); w != "" {
+					bad = fmt.Sprintf("the constructor %s returns %s (%s): every call that finds the pool empty receives the same object, so overlapping calls share one buffer", fnName(fn), w, p.posStr(instrPos(rt)))
+				}
+			})
+		}
+		if bad != "" {
+			r.Bad("POOL-NEW", key, p.posStr(pool.Pos()), bad)
+		} else {
+			r.OK("POOL-NEW", key, p.posStr(pool.Pos()), fmt.Sprintf("%d constructor(s): every returned object is allocated inside the invocation", len(fns)))
+		}
+	}
+}
+
+// freshInCall: "" when v is allocated during this invocation of fn.
+func freshInCall(p *Prog, fn *ssa.Function, v ssa.Value, depth int, seen map[ssa.Value]bool) string {
+	if depth > 6 || seen[v] {
+		return ""
+	}
+	seen[v] = true
+	switch x := v.(type) {
+	case *ssa.MakeInterface:
+		return freshInCall(p, fn, x.X, depth+1, seen)
+	case *ssa.ChangeType:
+		return freshInCall(p, fn, x.X, depth+1, seen)
+	case *ssa.Convert:
+		return freshInCall(p, fn, x.X, depth+1, seen)
+	case *ssa.Alloc:
+		if x.Parent() == fn {
+			return ""
+		}
+		return "memory allocated outside the invocation"
+	case *ssa.MakeSlice, *ssa.MakeMap, *ssa.MakeChan:
+		return ""
+	case *ssa.Slice:
+		return freshInCall(p, fn, x.X, depth+1, seen)
+	case *ssa.Phi:
+		for _, e := range x.Edges {
+			if w := freshInCall(p, fn, e, depth+1, seen); w != "" {
+				return w
+			}
+		}
+		return ""
+	case *ssa.Call:
+		sc := x.Call.StaticCallee()
+		if sc == nil {
+			return "the result of a dynamic call"
+		}
+		if !isRepoFn(sc) {
+			if strings.HasPrefix(sc.Name(), "New") || strings.HasPrefix(sc.Name(), "new") {
+				return ""
+			}
+			return "the result of " + sc.String() + ", which is not a constructor"
+		}
+		why := ""
+		eachInstr(sc, func(_ *ssa.BasicBlock, _ int, in ssa.Instruction) {
+			if rt, ok := in.(*ssa.Return); ok && len(rt.Results) >= 1 && why == "" {
+				why = freshInCall(p, sc, rt.Results[0], depth+1, seen)
+			}
+		})
+		return why
+	case *ssa.FreeVar:
+		return "the captured variable " + x.Name()
+	case *ssa.Global:
+		return "the package-level variable " + globalName(x)
+	case *ssa.Parameter:
+		return "its parameter " + x.Name()
+	case *ssa.UnOp:
+		if x.Op == token.MUL {
+			switch a := x.X.(type) {
+			case *ssa.FreeVar:
+				return "the value of the captured variable " + a.Name()
+			case *ssa.Global:
+				return "the value of the package-level variable " + globalName(a)
+			case *ssa.Alloc:
+				// a local cell: every store into it must be fresh
+				for _, rf := range refs(a) {
+					if st, ok := rf.(*ssa.Store); ok && st.Addr == ssa.Value(a) {
+						if w := freshInCall(p, fn, st.Val, depth+1, seen); w != "" {
+							return w
+						}
+					}
+				}
+				return ""
+			}
+		}
+		return "a value loaded from memory not allocated in the invocation"
+	case *ssa.Const:
+		return ""
+	}
+	return "a value of unrecognised origin (" + shortVal(v) + ")"
 }
